@@ -714,7 +714,39 @@ impl Check for FireCheck {
             l = Pat::node("u", vec![], vec![(vec![], l)]);
         }
         let nvars = g.nvars;
+        let next_bound = g.next_bound;
         let scopes = g.var_scope.clone();
+        // (own stream) wide left side: the pattern sits next to leaves over 7-11 further pattern slots whose
+        // names are in no particular order, half of the time below 1-4 extra binders whose slots the leaves
+        // use: one match then binds 9-15 slots (the crate's small maps / sets change representation at 8-10)
+        let mut wr = Rng::stream(seed, "wide-pattern");
+        if self.id == "C04" && wr.chance(1, 9) {
+            let nb = if wr.chance(1, 2) && next_bound <= 16 { 1 + wr.below(4) } else { 0 };
+            let bound: Vec<S> = (0..nb as S).map(|i| 16 + i).collect();
+            let mut names: Vec<S> = (40..40 + 7 + wr.below(5) as S - nb as S).collect();
+            names.extend(bound.iter().copied());
+            wr.shuffle(&mut names);
+            let k1 = names.len().min(6);
+            let a = Pat::node(&format!("p{k1}"), names[..k1].to_vec(), vec![]);
+            let rest = &names[k1..];
+            let mut w = Pat::node("b", vec![], vec![(vec![], a), (vec![], l.clone())]);
+            if !rest.is_empty() {
+                let c = Pat::node(&format!("p{}", rest.len()), rest.to_vec(), vec![]);
+                w = if wr.chance(1, 2) { Pat::node("b", vec![], vec![(vec![], c), (vec![], w)]) } else { Pat::node("t", vec![], vec![(vec![], w), (vec![], c.clone()), (vec![], c)]) };
+            }
+            let mut i = 0;
+            while i < bound.len() {
+                if i + 1 < bound.len() && wr.chance(1, 2) {
+                    w = Pat::node("lam2", vec![], vec![(vec![bound[i], bound[i + 1]], w)]);
+                    i += 2;
+                } else {
+                    w = Pat::node("lam", vec![], vec![(vec![bound[i]], w)]);
+                    i += 1;
+                }
+            }
+            l = w;
+            run.set("wide_pattern", 1);
+        }
         // right side over the same variables, respecting binder scopes
         let mut vars = Vec::new();
         l.vars(&mut vars);
